@@ -317,6 +317,15 @@ Proof.
   - intros c H. now apply sel_items_miss.
 Qed.
 
+Lemma constraint_currents_call_ok (tr : traj (F:=R)) flag ids :
+  (t_cmat_present tr = true ->
+     constraint_currents_call RO RA tr flag ids = Some (constraint_currents RO RA tr flag ids))
+  /\ (t_cmat_present tr = false ->
+     constraint_currents_call RO RA tr flag ids = None /\ forall p, current_unbalance_call RO RA tr p = None).
+Proof.
+  unfold constraint_currents_call, current_unbalance_call. split; intro H; rewrite H; auto.
+Qed.
+
 (* the result depends on the requested ids only as a SET: order and duplicates are irrelevant
    (no assumption on the constraint names) *)
 Theorem constraint_currents_order_irrelevant (tr : traj (F:=R)) flag ids ids' :
@@ -578,7 +587,7 @@ Qed.
 (* ------------------------------------------------------------------------------------------ *)
 Lemma analysis_example_wf :
   let tr := mk_traj 2%nat [[16; 0]; [8; 8]; [0; 32]] [208; 240; 277] [(1, 0); (0, 1); (-1, 0)]
-                    [10%Z; 11%Z] [[1; 1; 0]; [0; 1; -1]] [(10, 4); (5, 5)] 2%nat 5 in
+                    [10%Z; 11%Z] [[1; 1; 0]; [0; 1; -1]] [(10, 4); (5, 5)] 2%nat 5 true in
   wf tr /\ NoDup (t_cindex tr) /\ nth_error (t_cindex tr) 1 = Some 11%Z /\ requested (Some [11%Z; 10%Z; 11%Z]) 11%Z = true.
 Proof.
   cbv zeta. split; [|split; [|split]].
